@@ -384,10 +384,14 @@ def client_paced(run, e4, sc):
         w1 = srv.worker_pids()
         log = srv.error_log()
         guard = 0.5 if kind in STALLED_KINDS else 0.25
+        mk = kind
+        if (wc, kind) == ("gthread", "healthy-stalled-tls-onconnect"):
+            # the threaded worker does this handshake in its main loop, on a blocking socket (TConn.init() from enqueue_req()): F30
+            mk = kind + "/handshake-in-the-main-loop"
         if "WORKER TIMEOUT" in log or set(w1) != set(w0):
             if maxlag > guard:
                 return v, "healthy worker killed but scheduling lag was %.2f s" % maxlag, info
-            v.append(("healthy-worker-killed/" + kind, "%s, one worker, %s: worker set changed %s -> %s, WORKER TIMEOUT in log: %s "
+            v.append(("healthy-worker-killed/" + mk, "%s, one worker, %s: worker set changed %s -> %s, WORKER TIMEOUT in log: %s "
                       "(timeout %d s); the application was never busy for longer than a few milliseconds" % (
                           wc, "clients stopped at %s and stayed silent for %s s while short requests went on" % (
                               info["clients_stop_at"], info["stalled_for"]) if kind in STALLED_KINDS else
@@ -406,7 +410,7 @@ def client_paced(run, e4, sc):
         if bad:
             if maxlag > guard and not v:
                 return v, "short requests failed but scheduling lag was %.2f s" % maxlag, info
-            v.append(("healthy-worker-not-serving-while-clients-are-slow/" + kind,
+            v.append(("healthy-worker-not-serving-while-clients-are-slow/" + mk,
                       "%s, one worker %s (timeout %d s): %d of %d short requests were not answered by it within 6 s while %s: %s" % (
                           wc, w0, TIMEOUT, len(bad), len(answers),
                           "two other clients stopped at %s" % info["clients_stop_at"] if kind in STALLED_KINDS else
@@ -751,13 +755,14 @@ def plan(run, tier, seed):
              for j, c in enumerate(paused)]
     # healthy workers with slow clients.  Clients that stall for longer than the timeout: the classes that serve connections
     # concurrently (a sync worker handles one connection at a time and waits for that client: whether that is a hang is not
-    # decided here); gthread with do_handshake_on_connect does the handshake in its main loop and is left out for the same
-    # reason.  Clients that are slow but take far less than the timeout: every class.
+    # decided here); gthread with do_handshake_on_connect does the handshake in its main loop: a worker that serves connections
+    # concurrently is then stopped by one silent client (known finding F30, a mechanism name of its own).
+    # Clients that are slow but take far less than the timeout: every class.
     conc = ["gthread", "gevent", "eventlet"]
-    paced = [(c, k) for c in conc for k in STALLED_KINDS if (c, k) != ("gthread", "healthy-stalled-tls-onconnect")] + \
+    paced = [(c, k) for c in conc for k in STALLED_KINDS] + \
             [(c, k) for c in classes for k in SLOW_KINDS]
     if tier == "quick":
-        paced = [("gthread", "healthy-stalled-tls-lazy"),
+        paced = [("gthread", "healthy-stalled-tls-lazy"), ("gthread", "healthy-stalled-tls-onconnect"),
                  (["gevent", "eventlet"][seed % 2], STALLED_KINDS[(seed // 2) % 2]),
                  (conc[(seed + 1) % 3], "healthy-stalled-plain"),
                  ("sync", SLOW_KINDS[seed % 3])]
